@@ -1,8 +1,10 @@
 (* C01 — Re-opening a file yields exactly the state built through the API.
    Only statements, each closed by [exact] and followed by Print Assumptions.
-   Histories are lists of the nine model operations (Model/Ws.v) run from the empty workspace; [Reopen] = close + fresh
-   open; trees are compared up to the order of children ([tree_equiv]: HDF5 lists links by name). *)
-From GV Require Import Prelude.Base Model.Ws Model.WsSpec Proofs.WsProofs.
+   EXTENDED model (Model/WsX.v): property groups and copies.
+   Histories are lists of the twelve model operations (Model/WsX.v) run from the empty workspace; [Reopen] = close + fresh
+   open; trees are compared up to the order of children and of property-group blocks ([tree_equiv] / [attrs_equiv]: HDF5 lists links and
+   blocks by name). *)
+From GV Require Import Prelude.Base Model.WsX Model.WsXSpec Proofs.WsXProofs.
 
 (* PARTIAL (exact side condition: no entity is created under an identifier that still has a stale flat node):
    after ANY such history -- including removals that raised half-way and intermediate close/re-opens -- close + open
@@ -34,12 +36,14 @@ Theorem C01_init_reopen : fst (step init Reopen) = init.
 Proof. vm_compute. reflexivity. Qed.
 Print Assumptions C01_init_reopen.
 
-(* non-vacuity: a 14-operation history meeting the side condition with a move, a removal through the parent + sweep, a
-   removal through the workspace that raises half-way, an intermediate re-open and a complete removal; and the side
-   condition is what excludes the witness of the refutation *)
+(* non-vacuity: a 21-operation history meeting the side condition with two property groups, a copy of the object that
+   carries them, moves (of the object, of a grouped data), a data removal that empties a group, a removal through the
+   parent + sweep, a property-group removal, an intermediate re-open, a removal through the workspace that raises
+   half-way and a complete removal; and the side condition is what excludes the witness of the refutation *)
 Example C01_nonvacuous :
   fresh_run ops_demo init = true /\
-  map (fun n => snd (step (run (firstn n ops_demo) init) (nth n ops_demo Reopen))) (seq 0 14)
-  = [Done; Done; Done; Done; Done; Done; Done; Done; Done; Done; Done; Raised; Done; Done] /\
+  map (fun n => snd (step (run (firstn n ops_demo) init) (nth n ops_demo Reopen))) (seq 0 21)
+  = [Done; Done; Done; Done; Done; Done; Done; Done; Done; Done; Done;
+     Done; Done; Done; Done; Done; Done; Done; Done; Raised; Done] /\
   fresh_run ops_stale init = false.
 Proof. split; [apply ops_demo_ok | split; [apply ops_demo_ok | exact ops_stale_not_fresh]]. Qed.
